@@ -69,9 +69,9 @@ Definition anchor_of_str (s : string) : outcome anchor_opt :=
 
 (* NodeCoords(node, parent, parentref) as far as MergerConfig looks at it *)
 Record coord := mkcoord {
-  c_node : N;                 (* id(node) *)
-  c_parent : option N;        (* id(parent); None = the Python None *)
-  c_ref : option pyval        (* parentref: a key, an index (PInt), or None *)
+  mc_node : N;                 (* id(node) *)
+  mc_parent : option N;        (* id(parent); None = the Python None *)
+  mc_ref : option pyval        (* parentref: a key, an index (PInt), or None *)
 }.
 
 (* one entry of MergerConfig.rules / MergerConfig.keys after prepare() *)
@@ -112,7 +112,7 @@ Definition ref_eqb (a b : option pyval) : bool :=
    and rule_coord.parentref == node_coord.parentref   (mergerconfig.py:372-376,
    after fix d59fc2c; the unrepaired code compared with ==) *)
 Definition coord_match (rc nc : coord) : bool :=
-  N.eqb (c_node rc) (c_node nc) && opt_N_eqb (c_parent rc) (c_parent nc) && ref_eqb (c_ref rc) (c_ref nc).
+  N.eqb (mc_node rc) (mc_node nc) && opt_N_eqb (mc_parent rc) (mc_parent nc) && ref_eqb (mc_ref rc) (mc_ref nc).
 
 (* _get_config_for *)
 Fixpoint first_match (nc : coord) (section : list rule) : string :=
@@ -164,13 +164,13 @@ Fixpoint parent_key (p : option N) (section : list rule) : string :=
   | [] => ""
   | r :: rest =>
       match p with
-      | Some pn => if N.eqb pn (c_node (r_at r)) then r_val r else parent_key p rest
+      | Some pn => if N.eqb pn (mc_node (r_at r)) then r_val r else parent_key p rest
       | None => parent_key p rest     (* None is never a registered node *)
       end
   end.
 
 Definition aoh_merge_key (cfg : mconfig) (nc : coord) (first_key : option pyval) : pyval :=
   let k := get_key_for cfg nc in
-  let k := if nonempty k then k else parent_key (c_parent nc) (m_keys cfg) in
+  let k := if nonempty k then k else parent_key (mc_parent nc) (m_keys cfg) in
   if nonempty k then PStr k
   else match first_key with Some fk => fk | None => PStr k end.
